@@ -36,8 +36,11 @@ type Schedule struct {
 	Steps []Step         `json:"steps"`
 }
 
+var scanAll bool
+
 func newWorld(sc *Schedule, seed uint64, out *os.File) *world.World {
 	w := world.New(seed, out)
+	w.Scan = scanAll
 	for _, n := range []string{"A", "B"} {
 		peer := "B"
 		if n == "B" {
@@ -204,6 +207,7 @@ func cmdRun(args []string) int {
 	out := fs.String("out", "", "trace output (NDJSON)")
 	seed := fs.Uint64("seed", 1, "seed")
 	doDrain := fs.Bool("drain", false, "deliver everything at the end of each schedule")
+	scan := fs.Bool("scan", false, "scan the object graph for retained secrets and texts after every call")
 	fs.Parse(args)
 	f, err := os.Open(*sched)
 	if err != nil {
@@ -230,6 +234,7 @@ func cmdRun(args []string) int {
 		if s.Seed != 0 {
 			sd = s.Seed
 		}
+		scanAll = *scan
 		w := newWorld(&s, sd, of)
 		for _, st := range s.Steps {
 			if !execStep(w, st) {
